@@ -9,7 +9,7 @@ use tantivy::index::SegmentId;
 use tantivy::Order;
 use tvmon::dump::*;
 use tvmon::hist::*;
-use tvmon::mondir::{MonCfg, MonDir, OpKind, OpPred};
+use tvmon::mondir::{FaultMode, MonCfg, MonDir, OpKind, OpPred};
 use tvmon::report::*;
 use tvmon::rng::Rng;
 
@@ -371,7 +371,7 @@ fn forced_case(case: u64, rng: &mut Rng, rep: &mut Report) {
         }
         ex.step(&Op::Commit);
     }
-    let action = rng.below(6);
+    let action = rng.below(7);
     let ids = ex.index.searchable_segment_ids().unwrap_or_default();
     if ids.len() < 2 {
         return;
@@ -394,6 +394,7 @@ fn forced_case(case: u64, rng: &mut Rng, rep: &mut Report) {
         2 => "delete+commit+delete+commit",
         3 => "second-merge+delete+commit",
         4 => "gc+add+commit",
+        6 => "delete+commit+fault-on-reconciliation",
         _ => "drop-writer",
     };
     let mut fut_opt = Some(fut);
@@ -432,6 +433,21 @@ fn forced_case(case: u64, rng: &mut Rng, rep: &mut Report) {
                 ex.step(&Op::Commit);
                 ex.step(&Op::Gc);
             }
+            6 => {
+                // the deletes committed during the merge cannot be re-applied to the merged
+                // segment (its .del cannot be written): the merge must be discarded, not published
+                for grp in 0..rng.urange(1, 3) {
+                    ex.step(&Op::DeleteTerm(Pred::Grp(grp as u64)));
+                }
+                ex.step(&Op::Add(g.doc(rng, 3)));
+                ex.step(&Op::Commit);
+                mon.add_fault(
+                    OpPred::kind(OpKind::OpenWrite).role("updater").fkind("del"),
+                    0,
+                    FaultMode::Once,
+                    std::io::ErrorKind::Other,
+                );
+            }
             _ => {
                 mon.release_gate(gate);
                 fut_opt = None;
@@ -452,6 +468,9 @@ fn forced_case(case: u64, rng: &mut Rng, rep: &mut Report) {
     ex.drain_merges();
     rep.count(if parked { "forced_merge_parked" } else { "forced_merge_gate_not_reached" }, 1);
     rep.count(&format!("forced_merge_outcome:{merge_outcome}"), 1);
+    if action == 6 && parked {
+        rep.count(if mon.faults_fired() > 0 { "reconciliation_fault_fired" } else { "reconciliation_fault_not_reached" }, 1);
+    }
     // reconciliation evidence: a .del created by the updater for a segment that did not exist
     // before the merge
     let log = mon.log();
